@@ -84,7 +84,7 @@ class Gen:
         OKF = ["plain", "plain", "omitted", "omitted", "cost", "lot", "pair", "assign", "assert", "expr", "multi-omitted",
                "assert-cost", "cancel-assert",
                "assign-zero", "total-cost", "neg-total", "assign-zero-cur", "neg-rate", "bare-zero-assert", "lot-cost-omitted",
-               "big-pair"]
+               "big-pair", "expr-precision"]
         ERRF = ["assert-false", "unbalanced", "zero-entry", "same-sign", "two-omitted", "zero-rate", "same-commodity-rate",
                 "bare-number", "half-unit", "three-commodity", "lot-and-cost", "bare-zero-assert-false", "big-same-sign"]
         bad_at = r.randint(0, ntxn - 1) if r.random() < 0.45 else -1
@@ -195,7 +195,12 @@ class Gen:
             if fl == "zero-rate":
                 rate = Fraction(0)
             known[a1] = known[a2] = False
-            if fl == "cost" or fl in ("zero-rate", "same-commodity-rate"):
+            if fl == "zero-rate":
+                # every spelling of a zero price: per-unit and total, cost and lot, literal and computed
+                form = r.choice(["%s %s @ %s", "%s %s @@ %s", "%s %s {%s}", "%s %s {{%s}}"])
+                zero = r.choice(["0 %s" % c2, "0.00 %s" % c2, "(25 %s - 25 %s)" % (c2, c2)])
+                return [P(a1, form % (fmt(v), c, zero)), r.choice([a2, P(a2, "0 %s" % c2)])]
+            if fl == "cost" or fl in ("same-commodity-rate",):
                 return [P(a1, "%s %s @ %s %s" % (fmt(v), c, fmt(rate), c2)), P(a2, "%s %s" % (fmt(-v * rate), c2))]
             if fl == "neg-rate":
                 # a negative unit price (cost or lot position): the balancing value is quantity x rate, sign included
@@ -349,6 +354,20 @@ class Gen:
             half = Fraction(5, 10 ** (p + 1)) * r.choice([1, -1, 3, -3])
             eps = r.choice([Fraction(0), Fraction(0), Fraction(1, 10 ** (p + 3)), Fraction(-1, 10 ** (p + 3))])
             return [P(a1, "%s %s" % (fmt(v), c)), P(a2, "%s %s" % (fmt(-v + half + eps), c))]
+        if fl == "expr-precision":
+            # a computed amount with MORE decimals than the commodity's declared precision: it is booked exactly (rounding
+            # is only for judging the balance), the counter-amount is written exactly or omitted
+            p = prec.get(c, 2)
+            x = Fraction(r.choice([1005, 333, 15, 1001, 7]), 10 ** (p + 1)) * r.choice([1, -1])
+            k = r.choice([3, 5, 7])
+            e = r.choice(["(%s %s * %d)" % (fmt(x), c, k), "(%s %s + %s %s)" % (fmt(x), c, fmt(x * (k - 1)), c),
+                          "(%s %s / 2)" % (fmt(x * 2 * k), c)])
+            self.track(bal, known, a1, c, x * k)
+            self.track(bal, known, a2, c, -x * k)
+            second = r.choice([P(a2, "%s %s" % (fmt(-x * k), c)), a2])
+            if second == a2:
+                known[a2] = False
+            return [P(a1, e), second]
         if fl == "expr":
             k = r.choice([2, 3, 4, 5])
             self.track(bal, known, a1, c, v * k)
